@@ -212,7 +212,7 @@ def handshake_counter(out):
     from vf.checks.c12_admission import RejectOnHeader
     n = 0
     for impl in ('sync', 'async'):
-        for pattern in ('ara', 'raa', 'arra', 'aarar', 'rrra'):
+        for pattern in ('ara', 'raa', 'arra', 'aarar', 'rrra', 'asa', 'aasaa', 'arsara'):
             w = peer.make_world(impl, behaviour=RejectOnHeader())
             src = Source('zero')
             orig = (secrets.token_bytes, os.urandom)
@@ -224,13 +224,18 @@ def handshake_counter(out):
             try:
                 src.got = []
                 for ch in pattern:
+                    if ch == 's':
+                        # the application shuts the server down (its background tasks end) and goes on using the same object
+                        w.call('shutdown')
+                        w.run()
+                        continue
                     w.http('GET', peer.BASEQ, headers={'X-Reject': '1'} if ch == 'r' else {})
                     w.run()
                     n += 1
                 ids = [e[1] for e in w.events if e[0] == 'connect']
-                if len(set(ids)) != len(ids) or len(ids) != len(pattern):
+                if len(set(ids)) != len(ids) or len(ids) != len(pattern.replace('s', '')):
                     out.append(_viol('duplicate_id', impl, 'zero', 0, len(ids),
-                                     'handshakes %s (a = accepted, r = rejected by the connect handler), constant random source: the '
+                                     'handshakes %s (a = accepted, r = rejected by the connect handler, s = shutdown() of the server), constant random source: the '
                                      'connect handler was given the ids %r' % (pattern, ids)))
             finally:
                 secrets.token_bytes, os.urandom = orig
